@@ -79,6 +79,8 @@ func (P) exec(line string) string {
 	switch f[1] {
 	case "tmpl":
 		return execTmpl(parseScenario(f[2:]))
+	case "two":
+		return execTwo(parseScenario(f[2:]))
 	}
 	return "bad-op"
 }
@@ -146,6 +148,43 @@ func execTmpl(s *scenario) string {
 	}
 	ci.clock.set(s.now)
 
+	if res := s.checkFacts(w, ci, bp); res != "" {
+		return res
+	}
+	best := ci.chain.BestSnapshot()
+
+	switch s.src {
+	case "stub":
+		st := &stubSource{have: map[chainhash.Hash]struct{}{}}
+		for i, tx := range bp.txs {
+			st.descs = append(st.descs, &mining.TxDesc{Tx: tx, Added: time.Unix(s.now, 0), Height: best.Height,
+				Fee: s.txs[i].fee, FeePerKB: s.txs[i].fpk})
+			st.have[*tx.Hash()] = struct{}{}
+		}
+		src = st
+	case "pool":
+	default:
+		return "bad-op"
+	}
+
+	policy := &mining.Policy{BlockMinWeight: s.minW, BlockMaxWeight: s.maxW, BlockPrioritySize: s.prioSize,
+		TxMinFreeFee: btcutil.Amount(s.minFree), BlockMinSize: s.minW / 4, BlockMaxSize: s.maxW / 4}
+	gen := mining.NewBlkTmplGenerator(policy, ci.params, src, ci.chain, ci.clock, ci.sigc, ci.hashc)
+	var pay address.Address
+	if s.addr {
+		pay = payAddress(ci.params)
+	}
+	tmpl, err := gen.NewBlockTemplate(pay)
+	if err != nil {
+		dbg("NewBlockTemplate: %v", err)
+		return "err"
+	}
+	return s.observe(w, ci, bp, gen, tmpl)
+}
+
+// checkFacts verifies what the line claims about the chain and the oracle
+// values it carries about the pool ("" = all hold).
+func (s *scenario) checkFacts(w *world, ci *chainInst, bp *builtPool) string {
 	// 1. the facts the line claims about the chain must hold on the real chain
 	want := *s
 	want.deriveFacts()
@@ -189,33 +228,7 @@ func execTmpl(s *scenario) string {
 		}
 	}
 
-	switch s.src {
-	case "stub":
-		st := &stubSource{have: map[chainhash.Hash]struct{}{}}
-		for i, tx := range bp.txs {
-			st.descs = append(st.descs, &mining.TxDesc{Tx: tx, Added: time.Unix(s.now, 0), Height: best.Height,
-				Fee: s.txs[i].fee, FeePerKB: s.txs[i].fpk})
-			st.have[*tx.Hash()] = struct{}{}
-		}
-		src = st
-	case "pool":
-	default:
-		return "bad-op"
-	}
-
-	policy := &mining.Policy{BlockMinWeight: s.minW, BlockMaxWeight: s.maxW, BlockPrioritySize: s.prioSize,
-		TxMinFreeFee: btcutil.Amount(s.minFree), BlockMinSize: s.minW / 4, BlockMaxSize: s.maxW / 4}
-	gen := mining.NewBlkTmplGenerator(policy, ci.params, src, ci.chain, ci.clock, ci.sigc, ci.hashc)
-	var pay address.Address
-	if s.addr {
-		pay = payAddress(ci.params)
-	}
-	tmpl, err := gen.NewBlockTemplate(pay)
-	if err != nil {
-		dbg("NewBlockTemplate: %v", err)
-		return "err"
-	}
-	return s.observe(w, ci, bp, gen, tmpl)
+	return ""
 }
 
 // observe renders the template and re-validates it independently.
